@@ -41,6 +41,22 @@ def check_config(cfg, w, rep):
     rtypes = base | wrap
     V = Verified(w)
 
+    # ---- (a0) what "verify" means for an extraction: the reader that is checked was opened on the content file of the call's own
+    #      (cache, integrity), is read to the end of that file (no `take(n)` or other adaptor between the file and the loop — a
+    #      grown file would be copied whole after only its recorded prefix was hashed), and the file then materialised is that
+    #      same content path (the R2 / R6 clauses of C01, re-checked here) ----
+    from ..framework import Report as _Report
+    from . import c01 as _c01
+    sub_ = _Report("C01")
+    _c01.check_config(cfg, w, sub_)
+    for (c_, rule, k, desc, ok) in sub_.obligations:
+        if ok and rule in ("R2-reader-provenance", "R2-verify-loop", "R6-same-file"):
+            rep.ob(cfg, "a0/" + rule, k, desc)
+    for k, v in sub_.violations.items():
+        if v.rule in ("R2-reader-provenance", "R2-verify-loop", "R6-same-file"):
+            rep.violation("a0:%s" % k, "an extraction could deliver bytes that were not verified — " + v.msg, loc=v.loc, config=cfg, rule="a0/" + v.rule,
+                          witness=v.witness)
+
     # ---- (a) verify, then materialise (or clean up on failure) ----
     n_vm = 0
     for lf in prog.fns.values():
